@@ -85,6 +85,39 @@ func c03(c *orch.Ctx) (*report.Result, error) {
 			pr.MaxControllers, pr.MaxMethods = 3, 4
 			pr.Models = 1
 		})
+		// shapes the random draw reaches too rarely: a default security with an empty scope list that
+		// some route inherits; two verbs on one path with different method-level security
+		for i, p := range projects {
+			if len(p.Controllers) == 0 || len(p.Config.Schemes) == 0 {
+				continue
+			}
+			switch i % 4 {
+			case 1:
+				p.Config.DefaultSecurity = &synth.Security{Scheme: p.Config.Schemes[i%len(p.Config.Schemes)].Name, Scopes: []string{}}
+				p.Config.Enforce = false
+				c0 := &p.Controllers[0]
+				c0.Security = nil
+				for mi := range c0.Methods {
+					if mi%2 == 0 {
+						c0.Methods[mi].Security = nil
+					}
+				}
+				p.SetFeature("default-security-without-scopes-inherited")
+			case 2:
+				for ci := range p.Controllers {
+					ms := p.Controllers[ci].Methods
+					for a := range ms {
+						for b := range ms {
+							if a < b && ms[a].IsEndpoint() && ms[b].IsEndpoint() && ms[a].Route == ms[b].Route && ms[a].Verb != ms[b].Verb {
+								ms[a].Security = []synth.Security{{Scheme: p.Config.Schemes[0].Name, Scopes: []string{"read"}}}
+								ms[b].Security = []synth.Security{{Scheme: p.Config.Schemes[len(p.Config.Schemes)-1].Name, Scopes: []string{"admin"}}}
+								p.SetFeature("same-path-verbs-with-different-security")
+							}
+						}
+					}
+				}
+			}
+		}
 	}
 	dist := report.NewDistincter()
 	counts := map[string]int{}
